@@ -39,11 +39,19 @@ def plain(v):
     return v
 
 
+def _kind_with_sign(v) -> str:
+    """kind_of, with negative zero told apart (tuples of items are compared with ==, under which -0.0 equals 0.0)."""
+    k = kind_of(v)
+    if k == "float" and v == 0 and math.copysign(1.0, v) < 0:
+        return "float:negative-zero"
+    return k
+
+
 def items_of(packet):
     out = []
     for name, v in packet.items():
         raw = getattr(v, "raw_value", "<no raw_value>")
-        out.append((name, kind_of(v), plain(v), kind_of(raw), plain(raw)))
+        out.append((name, _kind_with_sign(v), plain(v), _kind_with_sign(raw), plain(raw)))
     return out
 
 
